@@ -114,23 +114,24 @@ func pickInvocation(job *Job, run int) (gencore.Invocation, *gencore.Invocation)
 }
 
 type c12outcome struct {
-	violated   bool
-	class      string // differs | outcome
-	detail     string
-	deviated   []int
-	h          int
-	toff       time.Duration
-	ambient    int
-	late       bool
-	faultAt    int
-	faultKind  string
-	stall      bool // timers set by the generator have already expired when consulted
-	sched      int  // scheduling decisions among the generator's own goroutines that did not take the first candidate
-	schedTasks int
-	gaveUp     string
-	dirstate   int // 0 empty out dir, 1 user Go files of the same package already there, 2 stale output of another invocation there
-	events     []string
-	skipped    string
+	violated    bool
+	class       string // differs | outcome
+	detail      string
+	deviated    []int
+	h           int
+	toff        time.Duration
+	ambient     int
+	late        bool
+	faultAt     int
+	faultKind   string
+	stall       bool // timers set by the generator have already expired when consulted
+	sched       int  // scheduling decisions among the generator's own goroutines that did not take the first candidate
+	schedTasks  int
+	gaveUp      string
+	inputsOlder bool // dirstate 2: spec and config of the judged invocation carry older file times than the stale output
+	dirstate    int  // 0 empty out dir, 1 user Go files of the same package already there, 2 stale output of another invocation there
+	events      []string
+	skipped     string
 }
 
 // execC12 runs one C12 case from the given tape.
@@ -207,6 +208,14 @@ func (e *c12env) execC12(inv gencore.Invocation, other *gencore.Invocation, t *t
 		os.WriteFile(filepath.Join(out, "zz_user_logging.go"), []byte(siblingSource(inv.Package)), 0o644)
 	case 2:
 		if other != nil {
+			// half of the time the inputs of the judged invocation are on disk *before* the stale output is produced
+			// (spec written, generated with other flags / another spec into the same directory, generated again without
+			// touching the spec): file times then say "output newer than input", which is what a make-style
+			// "skip when up to date" shortcut looks at
+			if t.Flip(1, 2, "inputs-older-than-stale-output") {
+				inv.Materialise(in)
+				o.inputsOlder = true
+			}
 			oin := filepath.Join(filepath.Dir(in), "other-in")
 			gencore.RunInProcess(*other, oin, out, gencore.Sched{Tape: tape.Zero(), FaultAt: -1}, e.root)
 		}
@@ -394,6 +403,9 @@ func runC12(job *Job, res *Result) {
 			s, _ := json.Marshal(map[string]any{"run": run, "corpus": inv.Corpus, "flags": inv.Flags(), "history": historyNames[o.h],
 				"clock_offset": o.toff.String(), "events": o.events, "tape": t.Rec, "result": map[bool]string{true: "VIOLATION", false: "identical to sorted-order run"}[o.violated]})
 			res.Samples = append(res.Samples, s)
+		}
+		if o.inputsOlder {
+			res.Counters["runs_with_stale_output_newer_than_the_inputs"]++
 		}
 		if !o.violated {
 			continue
